@@ -14,8 +14,9 @@ import tempfile
 from concurrent.futures import ProcessPoolExecutor
 from pathlib import Path
 
-VERIF = Path(__file__).resolve().parent.parent
-SEEDED = VERIF / ("benign" if "--benign" in sys.argv else "seeded")
+VERIF = Path(os.environ.get("EVAL_VERIF") or Path(__file__).resolve().parent.parent)
+HOME = Path(__file__).resolve().parent.parent
+SEEDED = HOME / ("benign" if "--benign" in sys.argv else "seeded")
 BENIGN = "--benign" in sys.argv
 PROPS = ["C01", "C02", "C03", "C04", "C05", "C06", "C07", "C08", "C09", "C11", "C12", "C13", "C14", "C16", "C17", "C18", "C19", "C20"]
 
@@ -62,7 +63,7 @@ def main():
         for p in fired + undec:
             print("      ", p, res[p].splitlines()[1].strip()[:200] if len(res[p].splitlines()) > 1 else res[p][:200])
         summary[name] = {"target": target, "verdict": verdict, "fired": fired, "undecided": undec, "detail": {p: res[p] for p in fired + undec}}
-    out = SEEDED / "RESULTS.json"
+    out = Path(os.environ["EVAL_OUT"]) if os.environ.get("EVAL_OUT") else SEEDED / "RESULTS.json"
     if [a for a in sys.argv[1:] if not a.startswith("--")] and out.exists():
         # a partial run updates the entries it evaluated and keeps the others
         old = json.loads(out.read_text())
